@@ -18,6 +18,14 @@ CHECKS = {
             'R5a each of the ~25 infallibility beliefs `ConstrainedDecimal::try_from(e).unwrap()` is justified by sign algebra including rounding-to-zero, '
             'per instantiation of the generic wrappers (two sites by reviewed relational argument whose premises are re-checked); R5b no parser result on '
             'non-constant text reaches unwrap/expect, and every compiled regex pattern is constant-derived. ' + PARTIAL % 'C05'),
+    'C06': ('other', 'inter-procedural forward data-flow of rounded values to formatting sinks; parameter/field flow closure of the precision flag; field provenance of year keys',
+            'R6a the result of every lossy Decimal operation reaches only string formatting (reviewed barriers with frozen caller sets for the '
+            'effective-cent snap and spreadsheet floats); R6b the --print-full-values flag is only ever passed on to PrintHelper, whose field is '
+            'read only by curr_str; R6c gains are bucketed by Tx.settlement_date and total/yearly sums add the same value. ' + PARTIAL % 'C06'),
+    'C07': ('other', 'field-read set and edge-condition rule on Tx ordering; must-precede (dominator) sort-before-split; loop-carried definition of the read index; header normalisation provenance; index-stability taint',
+            'R7a Tx order = (settlement_date, read_index) with read_index only on Equal; R7b sort dominates split_txs_by_security with no mutation in between '
+            'and an order-preserving split; R7c the read index is carried across files and incremented per record; R7d header cells are lower-cased and '
+            'trimmed before lookup and column indices are positions in the unfiltered row. ' + PARTIAL % 'C07'),
     'C08': ('other', 'loop-exit rule on per-security loops + argument provenance + global-writer census over MIR',
             'R8a no early exit from any loop driven by a security-keyed map; R8b the bookkeeping entry point gets only that security\'s '
             'rows/opening position and no &mut state; R8c no process-global mutable state beyond three reviewed statics. ' + PARTIAL % 'C08'),
